@@ -95,6 +95,10 @@ def generate(seed, tier, index):
                 others = [e for v, e in ELEMENTS if v == vec and e != el]
                 e2 = rng.choice(others)
                 st["els"].append([e2, val if vec != "TXT" else "second"])
+                if vec == "NUM" and rng.random() < 0.5:
+                    # one member of the write carries a text its format cannot take (legal for the client API, unusable for
+                    # the driver): it is ignored - no Write event, no update - and the other member is written as usual
+                    st["bad"] = rng.choice([el, e2])
             steps.append(st)
         elif r < 0.65:
             steps.append({"op": "set_value", "vec": vec, "el": el, "value": val})
@@ -427,9 +431,11 @@ def execute(scen):
                 # (a number travels as the text its format renders: what the driver is asked for is that text's value)
                 pairs = sorted({e: (float("%.2f" % v) if vec == "NUM" else v) for e, v in st["els"]}.items(), key=lambda p: order.index(p[0]))
 
+                bad = st.get("bad") if len(pairs) > 1 else None
+
                 def submit():
                     for el, val in pairs:
-                        mv.get_element(el).value = ("%.2f" % val) if vec == "NUM" else val
+                        mv.get_element(el).value = "1:30" if el == bad else (("%.2f" % val) if vec == "NUM" else val)
                     mv.submit()
                 sim.do(submit)
                 sim.settle()
@@ -442,14 +448,18 @@ def execute(scen):
                     probes["multi_element_write"] = probes.get("multi_element_write", 0) + 1
                     # weaker but sound check for multi-element writes: every subscribed Write handler exactly once per named element
                     seg = trace[mark:]
+                    if bad:
+                        probes["write_with_one_unusable_member"] = probes.get("write_with_one_unusable_member", 0) + 1
                     for el, val in pairs:
                         for hid in subscribed("Write", vec, el):
                             n = sum(1 for e in seg if e["what"] == "handler" and e["hid"] == hid and e["kind"] == "Write" and e["el"] == el)
-                            if n != 1:
-                                viol.append({"clause": "C14.write_once", "detail": f"Write handler h{hid} invoked {n} times for {el} in a two-element write", "facts": facts})
+                            want_n = 0 if el == bad else 1
+                            if n != want_n:
+                                viol.append({"clause": "C14.write_once", "detail": f"Write handler h{hid} invoked {n} times for {el} in a two-element write, expected {want_n}"
+                                             + (f" (the other member, {bad}, carried an unusable value)" if bad and el != bad else ""), "facts": facts})
                     npub = sum(1 for e in seg if e["what"] == "publish" and e["vec"] == vec)
-                    vetoes = sum(1 for el, _ in pairs if any(scen["handlers"][h]["veto"] and not scen["handlers"][h]["coro"] for h in subscribed("Write", vec, el)))
-                    want = (len(pairs) - vetoes) if vec_enabled(vec) else 0
+                    vetoes = sum(1 for el, _ in pairs if el != bad and any(scen["handlers"][h]["veto"] and not scen["handlers"][h]["coro"] for h in subscribed("Write", vec, el)))
+                    want = (len(pairs) - vetoes - (1 if bad else 0)) if vec_enabled(vec) else 0
                     if npub != want and not viol:
                         viol.append({"clause": "C14.publish", "detail": f"two-element write published {npub} updates, expected {want}", "facts": facts})
             elif op == "publish_blob":
